@@ -331,8 +331,17 @@ func summarize(node string, w int, ops []kvop, batch bool) F {
 	case strings.HasPrefix(o.key, "/i/"):
 		rec["kind"] = "idx"
 	case strings.HasPrefix(o.key, "/batches/"):
+		// single sequencer's queue record: "<20-digit sequence number>-<hex content hash>" (older format: the hash only)
 		rec["kind"] = "queue"
-		rec["key"] = short(strings.TrimPrefix(o.key, "/batches/"))
+		k := strings.TrimPrefix(o.key, "/batches/")
+		rec["h"] = -1
+		if i := strings.IndexByte(k, '-'); i == 20 {
+			if n, err := strconv.ParseUint(k[:i], 10, 62); err == nil {
+				rec["h"] = int(n)
+			}
+			k = k[i+1:]
+		}
+		rec["key"] = short(k)
 	case len(o.key) == 65:
 		rec["kind"] = "seen"
 		rec["key"] = short(o.key[1:])
